@@ -339,3 +339,56 @@ def norm_reply(s):
 def engine_view(P):
     """What run_physical hands to the engine: the dry-run plan minus its source literals (on a copy)."""
     return prune_source_literals(P, inplace=False)
+
+
+class LocalDriver:
+    """A private copy of the driver executable for the duration of one exploration: other builders may relink
+    lean/.lake/build/bin/driver at any moment, and these explorations start the driver once per history."""
+
+    def __init__(self, driver):
+        import atexit
+        import os
+        import shutil
+        import tempfile
+        import time
+        from harness import common
+        self.path = None
+        for _ in range(60):
+            try:
+                fd, path = tempfile.mkstemp(prefix="verif-driver-")
+                os.close(fd)
+                shutil.copy2(common.DRIVER, path)
+                os.chmod(path, 0o755)
+                self.path = path
+                break
+            except OSError:
+                try:
+                    os.remove(path)
+                except OSError:
+                    pass
+                time.sleep(1.0)
+        if self.path is None:
+            raise common.Broken("build", "driver", "driver executable missing")
+        atexit.register(self.close)
+
+    def close(self):
+        import os
+        if self.path:
+            try:
+                os.remove(self.path)
+            except OSError:
+                pass
+            self.path = None
+
+    def batch(self, lines):
+        import subprocess
+        from harness import common
+        r = subprocess.run([self.path], input="\n".join(lines) + "\n", capture_output=True, text=True, timeout=600)
+        out = r.stdout.splitlines()
+        if len(out) != len(lines):
+            raise common.Broken("correspondence", "driver-protocol", f"{len(lines)} requests, {len(out)} replies; stderr={r.stderr[:300]}")
+        return out
+
+
+def local_driver(driver):
+    return None if driver is None else LocalDriver(driver)
